@@ -8,7 +8,7 @@
 (* and validation continues, so one run reports every rejection.           *)
 (* The orchestrator (bin/check) attributes failed conjuncts to properties. *)
 (***************************************************************************)
-EXTENDS Arith, Json
+EXTENDS Arith, Order, Json
 T == ndJsonDeserialize("trace.ndjson")
 VARIABLE l
 
@@ -55,8 +55,36 @@ Verdict_a(ev) ==
                   /\ (ev.al \notin {"dy", "dxy", "xy"} => SameRepr(ev.ya, ev.y))
                   /\ (ev.al = "xy" => SameRepr(ev.ya, ev.x))>> >>)
 
+\* ---------------- family "o": comparisons (C15) ----------------
+Verdict_o(ev) ==
+  IF ev.panic # "" THEN {"panic"}
+  ELSE LET nan == IsNaNForm(ev.x) \/ IsNaNForm(ev.y)
+           w == Want("cmp", [p |-> 0, emax |-> LIMIT, emin |-> -LIMIT, r |-> "", t |-> 0], ev.x, ev.y, 0)
+       IN Names(<<
+       <<"cmp",    ~nan => ev.cmp = CmpSpec(ev.x, ev.y)>>,
+       <<"total",  ev.tot = CmpTotalSpec(ev.x, ev.y)>>,
+       <<"ctxcmp", ValueOK(w, ev.cres) /\ (w.k = "fin" => (ev.cres.e = 0 /\ ev.cfl = 0)) /\ (w.k = "nan" => ev.cfl = w.fl)>>,
+       <<"frame",  SameRepr(ev.xa, ev.x) /\ SameRepr(ev.ya, ev.y)>> >>)
+
+\* observed matrices: the order axioms on what the code returned, no oracle
+Verdict_om(ev) ==
+  LET n == Len(ev.vals)  I == 1..n IN
+  Names(<<
+    <<"antisym", \A i, j \in I : ev.tot[i][j] = -ev.tot[j][i]>>,
+    <<"trans",   \A i, j, k \in I : (ev.tot[i][j] <= 0 /\ ev.tot[j][k] <= 0) => ev.tot[i][k] <= 0>>,
+    <<"zero-iff-same", \A i, j \in I : (ev.tot[i][j] = 0) <=> AbsEq(ev.vals[i], ev.vals[j])>>,
+    <<"cmp-antisym", \A i, j \in I : ev.cmp[i][j] # 99 => ev.cmp[i][j] = -ev.cmp[j][i]>>,
+    <<"cmp-trans", \A i, j, k \in I : (ev.cmp[i][j] # 99 /\ ev.cmp[j][k] # 99 /\ ev.cmp[i][k] # 99 /\ ev.cmp[i][j] <= 0 /\ ev.cmp[j][k] <= 0) => ev.cmp[i][k] <= 0>>,
+    <<"agree", \A i, j \in I : (ev.cmp[i][j] # 99 /\ ev.cmp[i][j] # 0) => ev.tot[i][j] = ev.cmp[i][j]>> >>)
+
+\* ---------------- family "nd": NumDigits (C19) ----------------
+Verdict_nd(ev) == IF ev.panic # "" THEN {"panic"} ELSE Names(<< <<"numdigits", ev.nd = NumDigits(ev.b)>> >>)
+
 Verdict(ev) ==
   CASE ev.k = "a" -> Verdict_a(ev)
+    [] ev.k = "nd" -> Verdict_nd(ev)
+    [] ev.k = "o" -> Verdict_o(ev)
+    [] ev.k = "om" -> Verdict_om(ev)
     [] OTHER -> {"unknown-family"}
 
 Init == l = 0
